@@ -160,6 +160,29 @@ func genHeaderBlock(r *RNG) []byte {
 		"",                                    // empty block
 	}
 	b, _ := hex.DecodeString(pool[r.Intn(len(pool))])
+	if r.Intn(3) == 0 {
+		// a literal field whose Huffman-coded value is mostly one-bits: EOS (thirty ones) and over-long padding at every
+		// bit offset, behind a short lead of arbitrary bits (RFC 7541 5.2: both are decoding errors, nothing more)
+		n := 2 + r.Intn(7)
+		v := make([]byte, n)
+		for i := range v {
+			v[i] = 0xff
+		}
+		lead := r.Intn(3)
+		for i := 0; i < lead && i < n; i++ {
+			v[i] = byte(r.Uint64())
+		}
+		if lead < n {
+			v[lead] = byte(0xff >> uint(r.Intn(8))) // the run of ones starts at any bit offset
+		}
+		if r.Intn(2) == 0 {
+			v[n-1] &= byte(0xff << uint(r.Intn(8))) // and may stop short of the end of the string
+		}
+		b = append([]byte{0x00, 0x01, 'x', 0x80 | byte(n)}, v...)
+		if r.Intn(2) == 0 {
+			b = append([]byte{0x00, 0x80 | byte(n)}, append(v, 0x01, 'y')...) // the same octets as a Huffman-coded name
+		}
+	}
 	if r.Intn(4) == 0 {
 		g := make([]byte, 1+r.Intn(40))
 		for i := range g {
